@@ -423,7 +423,7 @@ def stream_words(ctx, R):
         for b1 in range(256):
             ws.append(bytes([b0, b1, 0, 0])); ws.append(bytes([b0, b1, 0xff, 0xff]))
     ws += [bytes.fromhex(h) for h in ('42100000', 'c276a000', '3d68db8b', '443a6600', '4438fe00', '40400000', '4d4e3233', '394a2031')]
-    for _ in range(ctx.n(40000, 600000)):
+    for _ in range(ctx.n(60000, 600000)):
         ws.append(gen_word(rng) if rng.random() < 0.5 else rng.randbytes(4))
     B = 4000
     reqs = ['flt ' + b''.join(ws[i:i + B]).hex() for i in range(0, len(ws), B)]
@@ -467,7 +467,7 @@ def stream_words(ctx, R):
 
 def stream_files(ctx, R):
     rng = ctx.rng
-    plan = [('tiny', ctx.n(120, 1500)), ('small', ctx.n(120, 1500)), ('medium', ctx.n(60, 600)), ('large', ctx.n(10, 100))]
+    plan = [('tiny', ctx.n(200, 1500)), ('small', ctx.n(200, 1500)), ('medium', ctx.n(100, 600)), ('large', ctx.n(16, 100))]
     cases = []
     for size, cnt in plan:
         for _ in range(cnt):
@@ -606,7 +606,7 @@ def damage(rng, ps):
 def stream_malformed(ctx, R):
     rng = ctx.rng
     items = []
-    for _ in range(ctx.n(60, 700)):
+    for _ in range(ctx.n(100, 700)):
         ps = [gen_pass(rng, rng.choice(['tiny', 'tiny', 'small'])) for _ in range(rng.choice([1, 1, 2, 3]))]
         for label, data in damage(rng, ps):
             items.append((label, data))
@@ -659,19 +659,25 @@ def _passes_from_case(case):
 def replay(ctx, rec):
     R = _impl()
     _quiet()
-    case = rec['case']
+    case = rec.get('case') or {}
     try:
         if case.get('op') == 'file':
             ps = _passes_from_case(case)
             n0 = len(ctx.failures)
             oracle_file(ctx, R, ps, bytes.fromhex(case['hex']), case.get('variant', 'full'))
             new = ctx.failures[n0:]
-            if new:
-                return False, '; '.join(f"{f['detail']}" + (f" [known finding {f['finding']}]" if f['finding'] else '') for f in new)
-            return True, 'every name, count, header number, frame value and X value equals the recorded content'
+            unlisted = [f for f in new if not f['finding']]
+            known = '; '.join(f"{f['detail']} [known finding {f['finding']}]" for f in new if f['finding'])
+            if unlisted:
+                return False, '; '.join(f['detail'] for f in unlisted) + (f' (also: {known})' if known else '')
+            return True, ('every name, count, header number, frame value and X value equals the recorded content'
+                          + (f', except: {known}' if known else ''))
         if case.get('op') == 'word':
             w = bytes.fromhex(case['hex'])
             g = list(R.gen_floats(w))[0]; h = R.bytes_to_float(w); e = ibm(w)
+            if fl(h) == fl(e) and e != 0 and g == f12(w) and g != e:
+                return True, (f'bytes {w.hex()}: bytes_to_float {h!r} is the IBM value; gen_floats {g!r} is IBM*2^24/(2^24-1) '
+                              f'[known finding {F12}]')
             if fl(h) != fl(e) or fl(g) != fl(e):
                 return False, f'bytes {w.hex()}: gen_floats {g!r}, bytes_to_float {h!r}, IBM value {e!r}'
             return True, f'bytes {w.hex()} decode to {e!r} in both decoders'
